@@ -30,7 +30,7 @@ T_PAIRS = Q_PAIRS + [('bbb_a2', 'bbb_v7'), ('tears_a1', 'tears_v1'), ('tears_v1'
                      ('syn_sn7', 'syn_sn7'), ('syn_st', 'syn_st'), ('syn_10mhz', 'syn_10mhz'),
                      ('syn_irregular', 'syn_irregular'), ('syn_1hz', 'syn_1hz'), ('bbb_v7', 'bbb_a1')]
 Q_BASES = ['65s', '1h', '1d-20s', '1y', '54y']
-T_BASES = list(tk.BASES)
+T_BASES = list(tk.BASES) + ['x32']
 
 LEEWAY_MIN = 0     # obligations are stated for every leeway >= LEEWAY_MIN
 
@@ -57,7 +57,7 @@ def _window_us(ref_name):
 
 
 def _setup(sx, rep_name, ref_name, base, depth_rng, leeway_mode):
-    base_s = tk.BASES[base]
+    base_s = tk.base_seconds(base, rep_name)
     W = _window_us(ref_name)
     eps = sx.int('eps_us', 0, W - 1)
     elapsed_us = base_s * US + eps
@@ -119,7 +119,7 @@ def _number_range(rep_name, ref_name, base, depth_max):
     j = common.layouts()[rep_name]
     ts, d, sn = j['timescale'], j['segment_duration'], j.get('start_number', 1)
     W = _window_us(ref_name)
-    lo_el = tk.BASES[base] * US
+    lo_el = tk.base_seconds(base, rep_name) * US
     hi_el = lo_el + W
     k_hi = hi_el * ts // (d * US)
     k_lo = max(0, (lo_el - depth_max * US) * ts // (d * US) - 3)
@@ -184,7 +184,7 @@ def instances(tier):
 
 def _concrete(params, inputs):
     import datetime
-    base_s = tk.BASES[params['base']]
+    base_s = tk.base_seconds(params['base'], params['rep_name'])
     elapsed_us = base_s * US + inputs['eps_us']
     now = tk.now_from_elapsed_us(elapsed_us)
     leeway = inputs.get('leeway') if params['leeway_mode'] == 'int' else 16
